@@ -334,6 +334,19 @@ NOTE_EXTRA = {
     "C05": " Open known finding (known_findings.json, DESIGN 11.3): gridRingUnsafe returns a wrong ring with E_SUCCESS when the ring "
            "encloses >= 6 pentagons without touching one; the check prints two KNOWN-FINDING lines (executions and the design-level "
            "counterexample MC_GridUnsafeWrap_r1) and exits 0; any other wrong ring is a VIOLATION.",
+    "C02": " Strata added by seeding rounds: bands either side of the 30 icosahedron edges, cells and edge points 1e-9..1e-2 rad round the 20 "
+           "face centres, poles with the property's own tolerance kept exact beyond the integer cap. Found and fixed (fa8f377): "
+           "acos(1 - sqd/2) cancelled next to the face centres and put points up to 1e-10 rad inside a res-13..15 cell into a neighbour.",
+    "C03": " Every index isValidCell accepts among digit-tampered variants of sampled cells must round-trip as well.",
+    "C09": " Table-entry coverage of the reverse unfolding: for every pentagon, neighbouring base cell and leading digit, every IJ "
+           "coordinate of a box covering the pentagon's base cell at res 1..3, judged for inversion and compared with H3LocalIJ.",
+    "C10": " The edge observations are also made by 8 threads at once; complete strips of cells along the icosahedron edges inside "
+           "the pentagons' base cells at res 5.",
+    "C11": " The vertex observations are also made by 8 threads at once; complete strips of cells along the icosahedron edges inside "
+           "the pentagons' base cells at res 5 (topology and slot-i-is-corner-i geometry).",
+    "C12": " A library call that writes outside a guarded buffer, aborts, or exceeds 120 s of CPU time is an Overrun / Abort / Hang event.",
+    "C18": " A concurrent call that does not return within 300 s is a Hang event; calls 96..143 of the workload use cells on the "
+           "antimeridian and next to the poles.",
     "C07": " Found and fixed: the legacy fill lost cells of thin polygons crossing the antimeridian (known_findings.json).",
     "C15": " Also found and fixed: FULL returned cells that only touch a polygon made from cell boundaries at a vertex.",
 }
